@@ -67,8 +67,16 @@ inline Json genAniso(Rng &r, int d, const std::string &type, double p_some = 0.4
     Json a = Json::array();
     if (!r.chance(p_some)) return a;
     for (int k = 0; k < d; k++) a.push(Json(r.range(1, 3)));
-    // curved corrections may be negative (estimateAnisotropicCoefficients() returns such weights): the set is then not provably lower and the general selection algorithm runs
-    if (isCurved(type)) { bool neg = r.chance(0.35); for (int k = 0; k < d; k++) a.push(Json(neg ? r.range(-3, 1) : r.range(0, 2))); }
+    if (isCurved(type)) for (int k = 0; k < d; k++) a.push(Json(r.range(0, 2)));
+    return a;
+}
+// Curved weights with a negative logarithmic correction (estimateAnisotropicCoefficients() can return such weights): the index set is then
+// not provably lower and the general selection algorithm runs. Without level limits such sets grow without bound (observed: integer
+// overflow in pow3 / level caches, minutes-long selections - outside the listed properties), so callers must pair them with level limits.
+inline Json genAnisoNegativeCurved(Rng &r, int d) {
+    Json a = Json::array();
+    for (int k = 0; k < d; k++) a.push(Json(1));
+    for (int k = 0; k < d; k++) a.push(Json(r.range(-2, 0)));
     return a;
 }
 
